@@ -88,8 +88,7 @@ class VClock:
         self.blocks = 0
         self.fire_at = None
         self.fire_line = None
-        self.fire_occ = 1
-        self.line_hits = 0
+        self.line_hits = {}
         self.deep = False
         self.plan = {}            # block ordinal -> (gran, t)
         self.record = False       # record per-block path classes (profile run)
@@ -137,9 +136,12 @@ class VClock:
             if ent:
                 if ent[0] == 'line':
                     # "this statement is slow every time": fire before the occ-th arrival at source line L
-                    self.fire_line = int(ent[1])
-                    self.fire_occ = int(ent[2]) if len(ent) > 2 else 1
-                    self.line_hits = 0
+                    self.fire_line = {int(ent[1]): int(ent[2]) if len(ent) > 2 else 1}
+                    self.line_hits = {}
+                elif ent[0] == 'lines':
+                    # several slow statements (e.g. one in sympy_simplify and one in check_results): whichever is reached first
+                    self.fire_line = {int(L): int(occ) for L, occ in ent[1]}
+                    self.line_hits = {}
                 else:
                     self.deep = ent[0] == 'deep'
                     self.fire_at = int(ent[1])
@@ -193,9 +195,10 @@ class VClock:
             self.path.append(sys._getframe(1).f_lineno)
         if self.fire_line is not None:
             f = sys._getframe(1)
-            if f.f_lineno == self.fire_line:
-                self.line_hits += 1
-                if self.line_hits >= self.fire_occ:
+            occ = self.fire_line.get(f.f_lineno)
+            if occ is not None:
+                h = self.line_hits[f.f_lineno] = self.line_hits.get(f.f_lineno, 0) + 1
+                if h >= occ:
                     self.fire_line = None
                     self.fired.append((self.blocks, 'line', self.ticks, f.f_code.co_name, f.f_lineno, self.site))
                     self._consume()
